@@ -171,6 +171,9 @@ impl Exec {
                 if let Ok(Some(e)) = &r {
                     o.source = Some(format!("{:?}", e.source()));
                     bg = e.source() != Source::Memory;
+                    if bg {
+                        wait_sole_owner(e).await;
+                    }
                 }
                 o.seen = Some(hyb::see(k, r));
                 if bg {
@@ -200,7 +203,9 @@ impl Exec {
                     Ok(e) => {
                         o.source = Some(format!("{:?}", e.source()));
                         o.seen = Some(hyb::see_entry(k, &e));
-                        let _ = Source::Memory;
+                        if e.source() != Source::Memory {
+                            wait_sole_owner(&e).await;
+                        }
                     }
                     Err(e) => o.seen = Some(Seen::Error(format!("{:?}", e.kind()))),
                 }
@@ -298,6 +303,18 @@ impl Exec {
         if let Some(c) = self.cache.take() {
             let _ = c.close().await;
         }
+    }
+}
+
+/// The fetch task that served a lookup keeps its own handle of the entry for a moment after answering the caller (it is
+/// dropped when the task finishes).  A handle obtained by lookup pins an LRU entry, so "evict everything" right after the
+/// lookup would legitimately skip it: wait until the caller's handle is the only one (bounded, 2 s).
+pub async fn wait_sole_owner(e: &hyb::HEntry) {
+    for _ in 0..2000 {
+        if e.refs() <= 1 {
+            return;
+        }
+        tokio::time::sleep(std::time::Duration::from_millis(1)).await;
     }
 }
 
